@@ -20,7 +20,7 @@ structure St (α : Type) where
   buf  : List (Nat × α)
   next : Nat
   mode : Mode
-  deriving Repr
+  deriving Repr, DecidableEq
 
 /-- `u8::wrapping_sub` -/
 def wsub (a b : Nat) : Nat := (a + 256 - b % 256) % 256
@@ -71,16 +71,26 @@ def process {α} (s : St α) (seq : Nat) (m : α) : St α × ProcRes α :=
     if hasKey (wsub seq off) s1.buf then (s1, .dup)
     else ({ s1 with buf := insertSorted (wsub seq off) m s1.buf }, .inserted)
 
-/-- `Resequencer::drain` -/
+/-- `BTreeMap::remove(&k)` -/
+def removeKey {α} (k : Nat) : List (Nat × α) → Option (α × List (Nat × α))
+  | [] => none
+  | (k', v) :: t =>
+    if k' = k then some (v, t)
+    else match removeKey k t with
+      | some (m, t') => some (m, (k', v) :: t')
+      | none => none
+
+/-- `Resequencer::drain`: the entry for the expected sequence value is looked up by its key
+(`next_seq.wrapping_sub(offset)`), not taken from the front of the map. -/
 def drain {α} (s : St α) : St α × DrainRes α :=
   match s.mode with
   | .good => if s.buf.isEmpty then (s, .empty) else (s, .panic)
   | .reseq off =>
-    match s.buf with
-    | [] => (s, .empty)
-    | (k, m) :: t =>
-      if wadd k off ≠ s.next then (s, .missing)
-      else
+    if s.buf.isEmpty then (s, .empty)
+    else
+      match removeKey (wsub s.next off) s.buf with
+      | none => (s, .missing)
+      | some (m, t) =>
         let s' : St α := { s with buf := t, next := wadd s.next 1 }
         (if t.isEmpty then { s' with mode := .good } else s', .msg m)
 
